@@ -18,21 +18,35 @@ Ck(name, ok) == Check(name, tid, l, ok)
 Dict(js) == PairsToFun(js)
 SetOf(s) == { s[i] : i \in 1..Len(s) }
 
+\* the logged explanation has the shape the value clauses index into (a library that makes other numbers of callbacks,
+\* or reports other keys, is answered by these two clauses - never by an evaluation error of the clauses below)
+ShapeOK(c) ==
+   LET m == Len(c.obs) IN
+   /\ Len(c.rows) = m /\ Len(c.batch_out) = m /\ Len(c.batch_in) = m
+   /\ \A i \in 1..m : /\ Len(c.obs[i].order) = D /\ SetOf(c.obs[i].order) = Feat
+                       /\ Len(c.obs[i].L) = D + 1 /\ Len(c.obs[i].preds) = D + 1
+                       /\ Len(c.obs[i].outs) = D /\ Len(c.obs[i].ins) = D
+                       /\ \A j \in 1..D : \A k \in 1..Len(c.obs[i].ins[j]) : Len(c.obs[i].ins[j][k]) = D
+                       /\ Len(c.obs[i].x) = D
+   /\ \A r \in 1..Len(c.background) : Len(c.background[r]) = D
+ValuesKeyed(c) == { c.values[i][1] : i \in 1..Len(c.values) } = Feat
+
 \* one recomputed explanation
-Explained(c) ==
+ValueClauses(c) ==
    LET m == Len(c.obs)
        meanpred == T!MeanOutput([i \in 1..m |-> Dict(c.batch_out[i])])
        order(i) == c.obs[i].order
        L(i) == c.obs[i].L                      \* <<L_0, ..., L_D>>
        contribs == [i \in 1..m |-> S!SageContrib(order(i), L(i))]
        vals == Dict(c.values)
-   IN /\ Ck("batch.rows_explained", m = Len(c.rows) /\ \A i \in 1..m : c.obs[i].x = c.rows[i] /\ c.batch_in = c.rows)
+   IN /\ Ck("batch.rows_explained", \A i \in 1..m : c.obs[i].x = c.rows[i] /\ c.batch_in = c.rows)
       /\ Ck("batch.order_is_permutation", \A i \in 1..m : Len(order(i)) = D /\ SetOf(order(i)) = Feat)
       \* float means are exact (and their residues meaningful) only for dyadic sizes
       /\ Ck("batch.mean_prediction", c.exact_m => \A i \in 1..m : Dict(c.obs[i].preds[1]) = meanpred)
       /\ Ck("batch.chain_ends_at_model", c.exact_n => \A i \in 1..m : Dict(c.obs[i].preds[D + 1]) = Dict(c.batch_out[i]))
       /\ Ck("batch.mean_then_loss",
             c.exact_n => \A i \in 1..m : \A j \in 1..D :
+               Len(c.obs[i].outs[j]) > 0 /\
                Dict(c.obs[i].preds[j + 1]) = T!MeanOutput([k \in 1..Len(c.obs[i].outs[j]) |-> Dict(c.obs[i].outs[j][k])]))
       /\ Ck("batch.inner_samples", \A i \in 1..m : \A j \in 1..D : Len(c.obs[i].outs[j]) = c.n)
       /\ Ck("batch.imputed_inputs",
@@ -45,6 +59,9 @@ Explained(c) ==
            /\ Ck("batch.efficiency",
                  B!SumValues(vals) = B!ExplainedLoss([i \in 1..m |-> L(i)[1]], [i \in 1..m |-> c.obs[i].lmodel]))
       /\ Ck("batch.model_loss_is_own_prediction", \A i \in 1..m : c.obs[i].lmodel_pred = c.batch_out[i])
+Explained(c) == /\ Ck("batch.shape", ShapeOK(c))
+                /\ Ck("batch.values_keyed_by_features", ValuesKeyed(c))
+                /\ (ShapeOK(c) /\ ValuesKeyed(c)) => ValueClauses(c)
 
 Scheduled(c) == c.force \/ (c.seen_after % Tr.interval = 0)
 IntervalCall(c) ==
